@@ -502,6 +502,7 @@ func (e *FnExec) call(st *State, instr ssa.Instruction, c *ssa.CallCommon, res s
 			gk := fmt.Sprintf("%s#%d", name, e.guardN[name])
 			if g, ok := e.con.Guards[gk]; ok {
 				env := e.specEnv(st, instr.Pos())
+				env.block = instr.Block()
 				t, err := env.boolExpr(g)
 				if err != nil && strings.Contains(err.Error(), "no such contracted call") {
 					// the guard speaks about a call the function does not make (any more): it cannot hold
@@ -619,6 +620,7 @@ func (e *FnExec) call(st *State, instr ssa.Instruction, c *ssa.CallCommon, res s
 		gk := fmt.Sprintf("%s#%d", name, e.guardN[name])
 		if g, ok := e.con.Guards[gk]; ok {
 			env := e.specEnv(st, instr.Pos())
+			env.block = instr.Block()
 			// the actual arguments of the guarded call: arg0, arg1, ... (receiver not counted)
 			off := 0
 			if sig != nil && sig.Recv() != nil {
@@ -1405,7 +1407,6 @@ func (e *FnExec) runDefers(st *State, x *ssa.RunDefers) {
 		e.applyContract(st, key, con, sig, c, args, nil, d.Pos(), guard)
 	}
 }
-
 
 // sigKey: a name for a function type that ignores parameter names.
 func sigKey(t types.Type) string {
